@@ -38,6 +38,22 @@ def scalar(v: int, sp: int, is_str: bool = False) -> str:
     return SPELL[sp].format(float(v))
 
 
+# value tokens that stand for non-finite numbers (YAML .inf / -.inf) in explicit sweep value lists
+NONFINITE = {99991: float("inf"), 99993: float("-inf")}
+
+
+def sweep_val(x, ints: bool):
+    if int(x) in NONFINITE:
+        return NONFINITE[int(x)]
+    return int(x) if ints else float(x)
+
+
+def sweep_val_text(x, ints: bool) -> str:
+    if int(x) in NONFINITE:
+        return ".inf" if NONFINITE[int(x)] > 0 else "-.inf"
+    return str(int(x)) if ints else f"{float(x):.1f}"
+
+
 def meaning_node(n) -> Dict[str, Any]:
     """What yaml.safe_load must give back for this node text (render guard)."""
     out: Dict[str, Any] = {"processor": n["proc"]}
@@ -55,7 +71,7 @@ def meaning_node(n) -> Dict[str, Any]:
         out["parameters"] = {}
     sw = n["sweep"]
     if sw["on"]:
-        variables = {vname(sw): {"values": [int(x) if sw.get("ints") else float(x) for x in sw["vals"]]}}
+        variables = {vname(sw): {"values": [sweep_val(x, sw.get("ints")) for x in sw["vals"]]}}
         if sw.get("ctx2"):
             variables.update({"u": {"from_context": "ku"}, "w": {"from_context": "kw"}})
         rg = sw.get("rng") or {}
@@ -112,7 +128,7 @@ def render(cfg: List[Dict[str, Any]]) -> str:
             body.append("      parameters:" if n["pempty"] == 1 else "      parameters: {}")
         sw = n["sweep"]
         if sw["on"]:
-            vals = ", ".join((str(int(x)) if sw.get("ints") else f"{float(x):.1f}") for x in sw["vals"])
+            vals = ", ".join(sweep_val_text(x, sw.get("ints")) for x in sw["vals"])
             vtxt = f"{vname(sw)}: {{values: [{vals}]}}"
             if sw.get("ctx2"):
                 extra = ["u: {from_context: ku}", "w: {from_context: kw}"]
